@@ -221,7 +221,7 @@ def dependency_obligations(ctx, which=("build_matrix", "solve", "alpha", "mscale
     if "alpha" in which:
         want += [("c09", "alpha.range")]
     if "mscaled" in which:
-        want += [("c09", "init.mscaled_increasing.long"), ("c09", "init.frame")]
+        want += [("c09", "init.mscaled_increasing.long"), ("c09", "init.mscaled_increasing.alpha"), ("c09", "init.frame")]
     if "twophase" in which:
         want += [("c04", "twophase.delegates")]
     if "mesh" in which:
